@@ -161,13 +161,13 @@ def run(ctx):
 MANIFEST = {
     "category": "proof",
     "technique": "refutation witness by vm_compute on the C08 model replayed on the generated Go + linearizability checker proved sound and complete, "
-                 "run on every observed history + positive theorem acknowledged_put_never_lost",
+                 "run on every observed history + positive theorems acknowledged_put_never_lost, linearizable_without_retry",
     "text": ("coq/Properties/C09.v: the checker `linearizable` decides the definition lin_spec for every history (linearizable_sound, "
              "linearizable_complete); the full statement raft_kv_linearizable is a Definition and is REFUTED (raft_kv_linearizable_refuted / "
              "_is_false: 1 server, 2 clients: Put(k1,v1) ack, Put(k1,v2) ack, Get(k1) -> v1, because a client retry is applied twice); the witness "
-             "replays on the real generated Go (corpus/C09/retry_duplicate.json) and is the known finding. Proved positive part: "
-             "acknowledged_put_never_lost (the entry of an acknowledged Put stays at its index in every server that commits it, in every continuation, "
-             "per-link FIFO). Every history produced by seeded walks of the real generated archetypes (1-3 servers, 1-3 clients, 1-3 keys, retries, "
+             "replays on the real generated Go (corpus/C09/retry_duplicate.json) and is the known finding. Proved positive parts (per-link FIFO): "
+             "acknowledged_put_never_lost (the entry of an acknowledged Put stays at its index in every server that commits it, in every continuation) and "
+             "linearizable_without_retry (if no client request is applied twice the history is linearizable in the order of the applied log). Every history produced by seeded walks of the real generated archetypes (1-3 servers, 1-3 clients, 1-3 keys, retries, "
              "crashes) is checked by the Coq checker and its Python port; a non-linearizable history that is not explained by a re-applied retried Put "
              "is a violation."),
     "level_note": ("Known finding: raftkvs is not linearizable under client retries (no request de-duplication). Trusted: Coq kernel, the C08 model and "
